@@ -22,6 +22,7 @@ COQ = os.path.join(ROOT, "coq")
 WORK = os.path.join(ROOT, "work")
 BIN = os.path.join(WORK, "bin")
 REPO = os.environ.get("VERIF_REPO", "/repo")
+os.environ.setdefault("OCAMLRUNPARAM", "s=4M")
 GOENV = dict(os.environ, GOFLAGS="-mod=mod", GOPROXY="off", GOSUMDB="off", GOTOOLCHAIN="local",
              CGO_ENABLED="0")
 FORBIDDEN = re.compile(
@@ -91,10 +92,9 @@ def forbidden_scan():
 
 def coq_make(targets=None, timeout=3000):
     """Incremental full (.vo) build under a lock; returns (ok, log)."""
-    if not os.path.exists(os.path.join(COQ, "Makefile")):
-        rc, out = sh("coq_makefile -f _CoqProject -o Makefile", cwd=COQ)
-        if rc:
-            return False, out
+    rc, out = sh("flock %s/.lock %s/lib/coqproject.sh" % (COQ, ROOT), cwd=COQ)
+    if rc:
+        return False, out
     tgt = " ".join(targets) if targets else ""
     rc, out = sh("flock %s/.lock make -j16 %s" % (COQ, tgt), cwd=COQ, timeout=timeout)
     return rc == 0, out
@@ -122,25 +122,26 @@ def props_check(pid):
 # --------------------------------------------------------------------------
 # Go driver
 
-def go_build():
-    os.makedirs(BIN, exist_ok=True)
+def go_build(pid="common"):
+    """Builds the driver against REPO's working tree; go.mod/go.sum and the binary are per
+    property (work/<pid>/) so that concurrent checks do not disturb each other."""
     h = os.path.join(ROOT, "harness")
-    rc, out = sh("cp %s/go.sum %s/go.sum" % (REPO, h))
-    modfile = open(os.path.join(h, "go.mod")).read()
-    want = "replace github.com/opsidian/parsley => %s" % REPO
-    if want not in modfile:
-        modfile = re.sub(r"replace github.com/opsidian/parsley => \S+", want, modfile)
-        open(os.path.join(h, "go.mod"), "w").write(modfile)
-    rc, out = sh(["go", "build", "-tags", "verif", "-o", os.path.join(BIN, "impl_driver"), "."], cwd=h, env=GOENV,
-                 timeout=900)
-    return rc == 0, out
+    work = os.path.join(WORK, pid)
+    os.makedirs(work, exist_ok=True)
+    mod = open(os.path.join(h, "go.mod")).read()
+    mod = re.sub(r"replace github.com/opsidian/parsley => \S+", "replace github.com/opsidian/parsley => %s" % REPO, mod)
+    open(os.path.join(work, "go.mod"), "w").write(mod)
+    sh(["cp", os.path.join(REPO, "go.sum"), os.path.join(work, "go.sum")])
+    exe = os.path.join(work, "impl_driver")
+    rc, out = sh(["go", "build", "-tags", "verif", "-modfile", os.path.join(work, "go.mod"), "-o", exe, "."], cwd=h,
+                 env=GOENV, timeout=900)
+    return rc == 0, out, exe
 
 
-def _run_chunk(subcmd, lines, stall):
+def _run_chunk(exe, subcmd, lines, stall):
     """Run one driver process over lines; a crash or a stall marks that case and restarts after it."""
     out = []
     i = 0
-    exe = os.path.join(BIN, "impl_driver")
     while i < len(lines):
         p = subprocess.Popen([exe, subcmd], stdin=subprocess.PIPE, stdout=subprocess.PIPE,
                              stderr=subprocess.DEVNULL, env=GOENV)
@@ -188,14 +189,14 @@ def _run_chunk(subcmd, lines, stall):
     return out
 
 
-def run_impl(subcmd, lines, procs=8, stall=20):
+def run_impl(exe, subcmd, lines, procs=8, stall=20):
     if not lines:
         return []
     n = max(1, min(procs, (len(lines) + 49) // 50))
     size = (len(lines) + n - 1) // n
     chunks = [lines[k:k + size] for k in range(0, len(lines), size)]
     with ThreadPoolExecutor(max_workers=n) as ex:
-        res = list(ex.map(lambda c: _run_chunk(subcmd, c, stall), chunks))
+        res = list(ex.map(lambda c: _run_chunk(exe, subcmd, c, stall), chunks))
     return [o for r in res for o in r]
 
 
@@ -265,15 +266,26 @@ def split_entries(txt):
     return res
 
 
-def run_model(pid, imports, harness, pairs, shard=250, procs=16, timeout=1500):
-    """pairs: list of (case_text, obs_text).  Returns (disagree, violate, details, errors)."""
+def run_model(pid, imports, harness, pairs, shard=None, procs=16, timeout=1500):
+    """pairs: list of (case_text, obs_text).  Returns (disagree, violate, details, errors).
+    Elaborating the literal case terms dominates (about 27 us per byte), so shards are
+    balanced by size, one per core."""
     os.makedirs(os.path.join(WORK, pid), exist_ok=True)
     for f in os.listdir(os.path.join(WORK, pid)):
         if f.startswith("cases_") or f.startswith(".cases_"):
             os.remove(os.path.join(WORK, pid, f))
-    jobs = []
-    for k, s in enumerate(range(0, len(pairs), shard)):
-        jobs.append((k, pid, imports, harness, pairs[s:s + shard], timeout))
+    total = sum(len(c) + len(o) for c, o in pairs)
+    target = max(60000, total // procs + 1)
+    shards, cur, size = [], [], 0
+    for i, (c, o) in enumerate(pairs):
+        cur.append(i)
+        size += len(c) + len(o)
+        if size >= target or (shard and len(cur) >= shard):
+            shards.append(cur)
+            cur, size = [], 0
+    if cur:
+        shards.append(cur)
+    jobs = [(k, pid, imports, harness, [pairs[i] for i in idx], timeout) for k, idx in enumerate(shards)]
     with ThreadPoolExecutor(max_workers=procs) as ex:
         res = list(ex.map(_run_shard, jobs))
     disagree, violate, details, errors = [], [], {}, []
@@ -281,10 +293,11 @@ def run_model(pid, imports, harness, pairs, shard=250, procs=16, timeout=1500):
         if "error" in r:
             errors.append(r)
             continue
-        disagree += [k * shard + i for i in r["disagree"]]
-        violate += [k * shard + i for i in r["violate"]]
+        idx = shards[k]
+        disagree += [idx[i] for i in r["disagree"]]
+        violate += [idx[i] for i in r["violate"]]
         for i, e in r["detail"].items():
-            details[k * shard + i] = e
+            details[idx[i]] = e
     return disagree, violate, details, errors
 
 
@@ -363,7 +376,7 @@ def standard_check(mod, tier, seed, replay=None):
     pid = mod.ID
     problems = []      # broken obligations (no concrete input yet)
     # 1. Coq build + theorems
-    ok, out = coq_make()
+    ok, out = coq_make(getattr(mod, "COQ_TARGETS", None))
     if not ok:
         # which file failed?
         m = re.findall(r"File \"([^\"]+)\", line (\d+)", out)
@@ -377,7 +390,7 @@ def standard_check(mod, tier, seed, replay=None):
     if hits:
         problems.append({"kind": "forbidden-words", "hits": hits})
     # 2. Go driver from the working tree
-    gok, gout = go_build()
+    gok, gout, exe = go_build(pid)
     if not gok:
         print("ERROR: cannot build the Go driver against %s:\n%s" % (REPO, gout[-3000:]))
         return 2
@@ -389,15 +402,19 @@ def standard_check(mod, tier, seed, replay=None):
     else:
         cases = corpus_cases(pid) + mod.generate(rng, tier)
     lines = [c for c, _ in cases]
-    obs = run_impl(mod.SUBCMD, lines, stall=getattr(mod, "STALL", 20))
+    t1 = time.time()
+    obs = run_impl(exe, mod.SUBCMD, lines, stall=getattr(mod, "STALL", 20))
+    log("%s: build %.1fs, implementation run %.1fs" % (pid, t1 - t0, time.time() - t1))
+    t1 = time.time()
     assert len(obs) == len(lines), (len(obs), len(lines))
     # 4. model + oracle
     disagree, violate, details, errors = ([], [], {}, [])
     if ok:
         disagree, violate, details, errors = run_model(pid, mod.IMPORTS, mod.HARNESS, list(zip(lines, obs)),
-                                                       shard=getattr(mod, "SHARD", 250))
+                                                       shard=getattr(mod, "SHARD", None))
         for e in errors:
             problems.append({"kind": "model-evaluation", "log": e["error"]})
+        log("%s: model evaluation %.1fs" % (pid, time.time() - t1))
     # 5. verdict
     findings = known_findings(pid)
     exit_code = 0
